@@ -310,7 +310,9 @@ class Simplex:
                         self.nbasic_basic[var_name].add(s)        
             
                     if var_name not in self.mapping:
-                        self.mapping.update({var_name : 0, s : 0})
+                        self.mapping[var_name] = 0
+                    if s not in self.mapping:
+                        self.mapping[s] = 0
                     self.bound[s] = (-math.inf, math.inf)
                     if var_name not in self.bound:
                         self.bound[var_name] = (-math.inf, math.inf)
@@ -375,7 +377,9 @@ class Simplex:
                     self.basic.add(s)
                     self.non_basic.add(var_name)
                     if var_name not in self.mapping:
-                        self.mapping.update({var_name : 0, s : 0})
+                        self.mapping[var_name] = 0
+                    if s not in self.mapping:
+                        self.mapping[s] = 0
                     self.bound[s] = (-math.inf, math.inf)
                     if var_name not in self.nbasic_basic:
                         self.nbasic_basic[var_name] = {s}
